@@ -1319,6 +1319,10 @@ def loop_fragment_cases(rnd, n):
                     return "%s @ %s q[%d];" % (rnd.choice(["inv", "pow(2)"]), rnd.choice(["s", "t", "x", "h"]), rnd.randrange(nq))
                 if c3 < 0.7:
                     return "%s(%s) q[%d];" % (rnd.choice(gp), rnd.choice(PEXPR), rnd.randrange(nq))
+                if defs and c3 < 0.85:
+                    nm, npar, k = rnd.choice(defs)
+                    return "%s%s %s;" % (nm, "(%s)" % ", ".join(rnd.choice(PEXPR) for _ in range(npar)) if npar else "",
+                                         ", ".join("q[%d]" % z for z in rnd.sample(range(nq), k)))
                 x, y = rnd.sample(range(nq), 2)
                 return "%s q[%d], q[%d];" % (rnd.choice(["cnot", "cx", "ch", "cz"]), x, y)
             cb = rnd.randrange(nc)
